@@ -13,10 +13,13 @@ RUNTIME = ["fmt", "main0", "init", "missing", "os", "strconv", "domain", "my_mai
 TEMPS = ["t0", "t5", "ret3", "mtmp0", "x1", "env3", "a__1"]
 TYPEISH = ["Tuple2_int32_bool", "closure_env_adder_0", "dyn__Show", "ref_int32_x", "ref__Ref_int32", "ref_get__Ref_int32", "array_get__Array_3_int32",
            "describe__T_int32", "ident__T_string", "int", "uint", "rune"]
-HOSTILE = GO_KEYWORDS + PREDECLARED + RUNTIME + TEMPS + TYPEISH
+# names shaped like the runtime helpers the compiler generates (int32_to_string, bool_to_json, ...): a user entity may carry them
+HELPERISH = ["audit_to_string", "emit_to_json", "to_string", "to_json"]
+HOSTILE = GO_KEYWORDS + PREDECLARED + RUNTIME + TEMPS + TYPEISH + HELPERISH
 
 BASE = {"fn": "helper", "param": "count", "local": "total", "struct": "Point", "field": "xs", "enum": "Shape", "variant": "Circle",
-        "trait": "Show", "method": "show", "inherent": "norm", "closure": "adder", "generic": "ident", "field2": "ys", "variant2": "Square", "local2": "acc"}
+        "trait": "Show", "method": "show", "inherent": "norm", "closure": "adder", "generic": "ident", "field2": "ys", "variant2": "Square", "local2": "acc",
+        "effectfn": "record", "effmethod": "touch"}
 
 
 def base_program(name, N):
@@ -29,6 +32,9 @@ def base_program(name, N):
     p.impl(N["trait"], St, [(N["method"], [("self", St)], STRING, Bin("+", Str("P"), show_int(Field(Var("self"), N["field"]))))])
     p.impl(N["trait"], INT32, [(N["method"], [("self", INT32)], STRING, Bin("+", Str("i"), show_int(Var("self"))))])
     p.impl(None, St, [(N["inherent"], [("self", St), ("k", INT32)], INT32, Bin("+", Bin("*", Field(Var("self"), N["field"]), Var("k")), Field(Var("self"), N["field2"])))])
+    # a function and an inherent method that are called only for their effect (their results are discarded)
+    p.fn(N["effectfn"], [("k", INT32)], INT32, Block([println(Bin("+", Str("rec"), show_int(Var("k"))))], Var("k")))
+    p.impl(None, St, [(N["effmethod"], [("self", St)], INT32, Block([println(Bin("+", Str("touch"), show_int(Field(Var("self"), N["field2"]))))], Int(0)))])
     p.fn(N["generic"], [("v", TParam("T"))], TParam("T"), Var("v"), gens=["T"])
     p.fn("describe", [("v", TParam("T"))], STRING, TCall(N["trait"], N["method"], Var("v")), gens=[("T", [N["trait"]])])
     p.fn("area", [("s", En)], INT32, Match(Var("s"), [(PCtor(N["variant"], PVar("r")), Bin("*", Var("r"), Var("r"))), (PCtor(N["variant2"], PVar("w"), PVar("h")), Bin("*", Var("w"), Var("h")))]))
@@ -41,6 +47,7 @@ def base_program(name, N):
         Let("ar", Array(Var(lo), Var(pa), Int(3))),
     ], Bin("+", Bin("+", Call("ref_get", Var(lo2)), Call("vec_len", Var("vv"))), Call("array_get", Var("ar"), Int(1)))))
     inh = Call(f"inherent#{N['struct']}#{N['inherent']}", Var("pt"), Int(3)); inh["form"] = "method"
+    touch = Call(f"inherent#{N['struct']}#{N['effmethod']}", Var("pt")); touch["form"] = "method"
     p.fn("main", [], UNIT, Block([
         Let("pt", Struct(St, [(N["field"], Int(4)), (N["field2"], Int(5))]), ty=St),
         Let(N["closure"], Lam([("d", INT32)], Bin("+", Var("d"), Field(Var("pt"), N["field"])))),
@@ -54,16 +61,22 @@ def base_program(name, N):
         println(show_int(CallV(Var(N["closure"]), Int(10)))),
         println(show_int(Call(N["generic"], Int(11), targs=[INT32]))),
         println(Call(N["generic"], Str("s"), targs=[STRING])),
+        # the trait method through a dyn value; discarded calls of the effectful function and method
+        Let("dd", ToDyn(N["trait"], Var("pt")), ty=TDyn(N["trait"])),
+        println(TCall(N["trait"], N["method"], Var("dd"))),
+        Do(Call(N["effectfn"], Int(1))),
+        Stmt(Call(N["effectfn"], Int(2))),
+        Do(touch),
     ], Unit))
     return p
 
 
-KINDS = ["fn", "param", "local", "local2", "struct", "field", "enum", "variant", "trait", "method", "inherent", "closure", "generic"]
+KINDS = ["fn", "param", "local", "local2", "struct", "field", "enum", "variant", "trait", "method", "inherent", "closure", "generic", "effectfn", "effmethod"]
 
 
 def programs(tier):
     out = [{"prog": base_program("c19_base", dict(BASE)), "family": "c19", "ident": "c19:base", "expect": "accept"}]
-    hostile = HOSTILE if tier == "thorough" else HOSTILE[::2] + TYPEISH
+    hostile = HOSTILE if tier == "thorough" else HOSTILE[::2] + TYPEISH + HELPERISH + ["len", "new", "main", "init"]
     for kind in KINDS:
         for h in hostile:
             if h in GOML_KEYWORDS:
